@@ -28,6 +28,7 @@ type tierSpec struct {
 	NativeRetries int      `json:"native_retries"` // for schedule-dependent violations
 	QueryTimeoutS int      `json:"query_timeout_s"`
 	Bounds        string   `json:"bounds"`
+	NoSleepSets   bool     `json:"no_sleep_sets"`
 }
 
 // violation filter: a rig shared by several properties labels its assertions
@@ -172,7 +173,7 @@ func cmdCheck(args []string) int {
 	}
 	cfg := interp.Config{Workers: *workers, ConcretizeCap: ts.CCap, PreemptionBound: pb, MaxSteps: ts.Steps,
 		MaxConcreteAlloc: 1 << 22, MaxPaths: ts.MaxPaths, RaceDetect: !ts.NoRace,
-		QueryTimeout: time.Duration(ts.QueryTimeoutS) * time.Second, Seed: seed, KeepSamples: 4000,
+		QueryTimeout: time.Duration(ts.QueryTimeoutS) * time.Second, Seed: seed, KeepSamples: 4000, SleepSets: !ts.NoSleepSets,
 		Deadline: t0.Add(time.Duration(ts.TimeoutS) * time.Second)}
 	e, s, err := loadEngine(*verif, *repo, []string{spec.Pkg}, cfg)
 	if err != nil {
@@ -251,29 +252,49 @@ func cmdCheck(args []string) int {
 		if retries == 0 {
 			retries = 1
 		}
-		for attempt := 0; attempt < retries; attempt++ {
-			var todo []nativeVector
-			for i, v := range vecs {
-				if owners[i].Native != "confirmed" {
-					todo = append(todo, v)
-				}
+		// schedule-dependent counterexamples are replayed `retries` times (the Go
+		// runtime picks among ready select cases at random); replicate the vector
+		multi := map[string]bool{}
+		for _, r := range results {
+			if r.MaxGoroutines > 1 {
+				multi[r.Harness] = true
 			}
-			if len(todo) == 0 {
-				break
+		}
+		var todo []nativeVector
+		back := map[int]int{}
+		for i, v := range vecs {
+			n := 1
+			if multi[v.Harness] {
+				n = retries
 			}
-			nres, err := s.runNative(spec.Pkg, allHarnesses, todo, workDir, 10*time.Second, false)
-			if err != nil {
-				inconclusive = append(inconclusive, "native replay failed: "+err.Error())
-				break
+			for k := 0; k < n; k++ {
+				id := len(todo)
+				back[id] = i
+				todo = append(todo, nativeVector{ID: id, Harness: v.Harness, Vars: v.Vars})
 			}
-			for _, v := range todo {
-				cv := owners[v.ID]
-				nr := nres[v.ID]
-				if nr == nil {
-					cv.Native, cv.Detail = "not-reproduced", "no native result"
-					continue
-				}
-				cv.Native, cv.Detail = classifyNative(cv.V, nr)
+		}
+		nres, err := s.runNative(spec.Pkg, allHarnesses, todo, workDir, 10*time.Second, false)
+		if err != nil {
+			inconclusive = append(inconclusive, "native replay failed: "+err.Error())
+		}
+		tries := map[int]int{}
+		for id, nr := range nres {
+			cv := owners[back[id]]
+			tries[back[id]]++
+			if cv.Native == "confirmed" {
+				continue
+			}
+			st, detail := classifyNative(cv.V, nr)
+			if st == "confirmed" || cv.Native == "" {
+				cv.Native, cv.Detail = st, detail
+			}
+		}
+		for i, cv := range owners {
+			if cv.Native == "" {
+				cv.Native, cv.Detail = "not-reproduced", "no native result"
+			}
+			if tries[i] > 1 {
+				cv.Detail += fmt.Sprintf(" (%d native attempts)", tries[i])
 			}
 		}
 	}
